@@ -210,6 +210,35 @@ func (w *World) callContract(key string) *FuncContract {
 	return v[0]
 }
 
+// callContractFor selects the callee contract variant a caller verified in `mode` (and named
+// `variant`) uses: the variant of the same name, else the first variant written for the same
+// integer mode, else none (the call is then abstracted).
+func (w *World) callContractFor(key, mode, variant string) *FuncContract {
+	v := w.CS.Funcs[key]
+	if len(v) == 0 {
+		return nil
+	}
+	if variant != "" {
+		for _, fc := range v {
+			if fc.Variant == variant && fc.Mode == mode {
+				return fc
+			}
+		}
+	}
+	for _, fc := range v {
+		if fc.Mode == mode {
+			return fc
+		}
+	}
+	// contracts that do not mention integers work in either mode: assumed specs without a mode line
+	for _, fc := range v {
+		if fc.Assumed && !fc.ModeSet {
+			return fc
+		}
+	}
+	return nil
+}
+
 func inRepo(fn *ssa.Function) bool {
 	if fn == nil {
 		return false
